@@ -120,6 +120,26 @@ def run(ctx, model_available=True):
     res = run_property(ctx, "C03", histories=hs, n_quick=0, n_thorough=0, oracle=oracle_c03,
                        model_available=model_available,
                        assumptions=["round(float(x)) raises only ValueError/OverflowError; AwesomeVersion comparisons raise only AwesomeVersionException/ValueError (checked on the generated payloads)"])
+    # the listener while application tasks send concurrently (gate transport of C09)
+    from props import c09
+
+    rr = rng_for(ctx.seed, "C03race")
+    sch = c09.gen_schedules(ctx)
+    nrace = 0
+    for acts in rr.sample(sch, min(len(sch), ctx.budget(250, 3000))):
+        r, _ = c09.run_actions(rr.choice(["2.0", "2.1", "2.2"]), acts)
+        nrace += 1
+        for e in r.listener_errors:
+            if not isinstance(e, ex.AIOMySensorsError):
+                res["failures"].append({"kind": "oracle", "sig": "C03:escape-race",
+                                        "desc": f"listen raised {type(e).__name__}: {e} while sends raced with the wake-up flush, schedule {acts}",
+                                        "case": {"actions": acts}})
+                break
+        r.close()
+        if len([f for f in res["failures"] if f["sig"] == "C03:escape-race"]) >= 2:
+            break
+    res["evaluations"] += nrace
+    res["distribution"]["race_schedules"] = nrace
     n, fs = stream_escape(ctx)
     res["evaluations"] += n
     res["failures"].extend(fs[:3])
